@@ -50,9 +50,9 @@ CLAIMS.update({
         "design": "DESIGN.md section 3 C03",
     },
     "C04": {
-        "text": "RFC 6979 structure: generate_k returns only values in [1, order-1] and only when retry_gen <= 0, the only write to retry_gen being a decrement by 1 in the acceptance branch; the HMAC-DRBG event order (K/V updates with separator bytes 00/01, the three additional inputs in order, T rebuilt from successive V updates, reseed K(V||00),V on every non-returning path) is checked as a typestate over resolved hmac events; sign_digest_deterministic forwards (generator.order(), secret, hashfunc, the untruncated digest, retry counter, extra entropy) to generate_k, retries on exactly RSZeroError with +1, passes the same digest / k / allow_truncate to sign_digest and encodes with the caller's sigencode; no nondeterminism source is reachable from generate_k and randrange is never called on the deterministic path. Does not decide byte equality with RFC 6979 (bits2int / bits2octets arithmetic, HMAC values).",
+        "text": "RFC 6979 structure: generate_k returns only values in [1, order-1] and only when retry_gen <= 0, the only write to retry_gen being a decrement by 1 in the acceptance branch; the HMAC-DRBG event order (K/V updates with separator bytes 00/01, the three additional inputs in order, T rebuilt from successive V updates, reseed K(V||00),V on every non-returning path) is checked as a typestate over resolved hmac events; sign_digest_deterministic forwards (generator.order(), secret, hashfunc, the untruncated digest, retry counter, extra entropy) to generate_k, retries on exactly RSZeroError with +1, passes the same digest / k / allow_truncate to sign_digest and encodes with the caller's sigencode; no nondeterminism source is reachable from generate_k and randrange is never called on the deterministic path. Does not decide byte equality with RFC 6979 (bits2int / bits2octets arithmetic, HMAC values). R04.3 is decided on an abstract trace: generate_k and the helpers of rfc6979.py are interpreted (sa/small.py) on abstract byte strings with symbolic HMAC terms for 144 scenarios (hash/order sizes, retry counter, rejected candidates, extra entropy) and the candidates and the returned one must equal the terms of a reference transcription of RFC 6979 3.2/3.6.",
         "note": "A1-A7; an unrecognised but equivalent restructuring of generate_k is reported as ANALYSIS-ERROR (cannot decide), not as a violation.",
-        "technique": "abstract interpretation (range/retry guards, call-argument provenance) + syntax-directed typestate over HMAC events + effect analysis",
+        "technique": "abstract interpretation (range/retry guards, call-argument provenance) + abstract interpretation of the DRBG on symbolic HMAC terms over a finite scenario grid (own interpreter of the syntax tree, no execution of the library) + effect analysis",
         "design": "DESIGN.md section 3 C04",
     },
     "C17": {
@@ -86,9 +86,9 @@ CLAIMS.update({
         "design": "DESIGN.md section 3 C06",
     },
     "C07": {
-        "text": "Sign and operand agreement of the multiplication loops: in mul_add the operand accumulated under each of the nine (sign A, sign B) digit cases is (sign A)P + (sign B)Q, the four combined points being classified from the signs of the Y arguments they were built with; __mul__ adds the negated base exactly on negative digits; _mul_precompute pairs k = 3 mod 4 with the negated table entry and (k+1)/2, k = 1 mod 4 with the entry and (k-1)/2; each digit starts with exactly one doubling and additions occur only in digit branches; accumulators start at the identity encoding (0, 0, 1) and every digit of the reversed NAF is consumed; NAF lists are padded to equal length; every table entry is the affine (x(), y()) of a point and is added with Z = 1; short-circuits pair each multiplier with its own point and the two fallbacks compute self*self_mul + other*other_mul; scalars are reduced only modulo a positive multiple of the declared order under `if self.__order`; C06's exactness/invariant rules hold inside the loops. The five Y == 0 sites in this code are the recorded known finding F6. Does not decide that NAF digits sum to k, table length, or result values. Identity typestate (R07.6): a result that may be the legacy identity object is the receiver only of operations class Point defines identity-safely (classified from the method bodies), unless guarded by == INFINITY.",
+        "text": "Sign and operand agreement of the multiplication loops: in mul_add the operand accumulated under each of the nine (sign A, sign B) digit cases is (sign A)P + (sign B)Q, the four combined points being classified from the signs of the Y arguments they were built with; __mul__ adds the negated base exactly on negative digits; _mul_precompute pairs k = 3 mod 4 with the negated table entry and (k+1)/2, k = 1 mod 4 with the entry and (k-1)/2; each digit starts with exactly one doubling and additions occur only in digit branches; accumulators start at the identity encoding (0, 0, 1) and every digit of the reversed NAF is consumed; NAF lists are padded to equal length; every table entry is the affine (x(), y()) of a point and is added with Z = 1; short-circuits pair each multiplier with its own point and the two fallbacks compute self*self_mul + other*other_mul; scalars are reduced only modulo a positive multiple of the declared order under `if self.__order`; C06's exactness/invariant rules hold inside the loops. The five Y == 0 sites in this code are the recorded known finding F6. Does not decide that NAF digits sum to k, table length, or result values. Identity typestate (R07.6): a result that may be the legacy identity object is the receiver only of operations class Point defines identity-safely (classified from the method bodies), unless guarded by == INFINITY. The digit dispatch of mul_add (9 digit pairs), __mul__ (3 digits), _mul_precompute (14 scalars) and the NAF padding (5 length pairs) are evaluated with a restricted evaluator to find the executed statements; the operand classification of the executed _add call is then compared with the digit signs.",
         "note": "A1-A7; same residue/role analysis as C06; an unrecognised restructuring of the digit dispatch is ANALYSIS-ERROR, not a violation.",
-        "technique": "abstract interpretation over a sign/operand provenance domain + structural loop-shape checks",
+        "technique": "abstract interpretation over a sign/operand provenance domain; digit dispatch decided by evaluating the guards on the finite digit / residue domain; identity typestate",
         "design": "DESIGN.md section 3 C07",
     },
 })
@@ -134,15 +134,15 @@ CLAIMS.update({
         "design": "DESIGN.md section 3 C14",
     },
     "C15": {
-        "text": "Range and guard clauses of the number-theory helpers (thin): inverse_mod in all four build variants (py3, py3-old, gmpy2, gmpy - analysed in every run) returns 0 for a == 0 or a value proven in [0, m-1], and the two extended-Euclid variants perform the same statements up to mpz wrapping; square_root_mod_prime returns values in [0, p-1] (polynomial helpers reduce every stored coefficient), tests the Jacobi symbol before every algorithm branch and raises SquareRootError, and every exponent division is exact in the residue class of its branch; jacobi asserts its preconditions, recurses on (n mod a1, a1) with a1 the odd part of a mod n, and its two sign rules equal the supplementary-law and reciprocity tables on all residue cases (evaluated by a restricted residue evaluator, nothing executed). Does not decide r*r = a, a*i = 1 or equality with the product of Legendre symbols.",
+        "text": "Range and guard clauses of the number-theory helpers (thin): inverse_mod in all four build variants (py3, py3-old, gmpy2, gmpy - analysed in every run) returns 0 for a == 0 or a value proven in [0, m-1], and the two extended-Euclid variants perform the same statements up to mpz wrapping; square_root_mod_prime returns values in [0, p-1] (polynomial helpers reduce every stored coefficient), tests the Jacobi symbol before every algorithm branch and raises SquareRootError, and every exponent division is exact in the residue class of its branch; jacobi asserts its preconditions, recurses on (n mod a1, a1) with a1 the odd part of a mod n, and its two sign rules equal the supplementary-law and reciprocity tables on all residue cases (evaluated by a restricted residue evaluator, nothing executed). Does not decide r*r = a, a*i = 1 or equality with the product of Legendre symbols. R15.1 sibling rule: one step of the two extended-Euclid variants is evaluated on symbolic values and compared as expressions.",
         "note": "A1, A5; numerical identities are outside static reach.",
-        "technique": "abstract interpretation (range entailment) across build configurations, sibling comparison, decision tables over residue classes",
+        "technique": "abstract interpretation (range entailment) across build configurations, symbolic-step sibling comparison, decision tables over residue classes, syntax patterns with metavariables",
         "design": "DESIGN.md section 3 C15",
     },
     "C16": {
-        "text": "Table and base-set clauses (thin): the literal smallprimes table is ascending, equals the set of primes up to its maximum (sieved by the checker) and is never written; is_prime answers n <= max(table) by membership before a prefilter that rejects only on a non-trivial gcd with table primes; for every bit length <= 65 at least 12 Miller-Rabin rounds are chosen (bases smallprimes[i], deterministic below 3.3e24 by the published bound) and False is returned only on a witness; next_prime walks odd candidates upward from (n+1)|1 until is_prime, 2 below 2; gcd/lcm reduce both calling conventions with the same binary function. Does not decide the modular arithmetic of Miller-Rabin, factorization or gcd values. factorization: the odd-divisor search advances by 2 and its single exit condition normalises (integer comparison normal form over n, d, n//d, d*d) to d*d > n; small-prime phase and n < 2 shape.",
+        "text": "Table and base-set clauses (thin): the literal smallprimes table is ascending, equals the set of primes up to its maximum (sieved by the checker) and is never written; is_prime answers n <= max(table) by membership before a prefilter that rejects only on a non-trivial gcd with table primes; for every bit length <= 65 at least 12 Miller-Rabin rounds are chosen (bases smallprimes[i], deterministic below 3.3e24 by the published bound) and False is returned only on a witness; next_prime walks odd candidates upward from (n+1)|1 until is_prime, 2 below 2; gcd/lcm reduce both calling conventions with the same binary function. Does not decide the modular arithmetic of Miller-Rabin, factorization or gcd values. factorization: the odd-divisor search advances by 2 and its single exit condition normalises (integer comparison normal form over n, d, n//d, d*d) to d*d > n; small-prime phase and n < 2 shape. R16.3 is decided on abstract scenarios: the Miller-Rabin tail of is_prime is interpreted (sa/small.py) for bit lengths 12-65, n-1 = 2^S*odd, power sequences classified ONE/-1/OTHER and a witness at base index 0, 5, 11 or none: False exactly when one of the first 12 bases smallprimes[i] is a witness. R16.5: gcd/lcm calling conventions on abstract tokens.",
         "note": "A1; shape rules over one function each: an equivalent restructuring is reported and must be re-confirmed by reading.",
-        "technique": "constant folding + table comparison, structural shape rules",
+        "technique": "constant folding + table comparison; abstract interpretation of the Miller-Rabin tail and of the gcd/lcm conventions on finite abstract scenarios (own interpreter of the syntax tree); comparison normal forms and syntax patterns for the remaining shape rules",
         "design": "DESIGN.md section 3 C16",
     },
 })
